@@ -80,6 +80,42 @@ class T:
             return _lit(1)
         return T('exp', s)
 
+    # comparisons: exp-free terms become z3 reals; the decision is taken by the path explorer
+    def z3(s):
+        import z3
+        if s.op == 'const':
+            return z3.RealVal(str(s.a[0]))
+        if s.op == 'var':
+            return z3.Real(s.a[0])
+        if s.op == 'neg':
+            return -s.a[0].z3()
+        if s.op == 'exp':
+            raise TypeError('comparison of a term containing exp')
+        x, y = s.a[0].z3(), s.a[1].z3()
+        return x + y if s.op == '+' else (x * y if s.op == '*' else x / y)
+
+    def _cmp(s, o, op):
+        import z3
+        from . import explore
+        a, b = s.z3(), _lit(o).z3()
+        f = {'<': a < b, '<=': a <= b, '>': a > b, '>=': a >= b, '==': a == b, '!=': a != b}[op]
+        return explore.SymBool(f)
+
+    def __lt__(s, o):
+        return s._cmp(o, '<')
+
+    def __le__(s, o):
+        return s._cmp(o, '<=')
+
+    def __gt__(s, o):
+        return s._cmp(o, '>')
+
+    def __ge__(s, o):
+        return s._cmp(o, '>=')
+
+    def __hash__(s):
+        return id(s)
+
     # printing
     def smt(s):
         if s.op == 'const':
